@@ -59,6 +59,11 @@ fn touch_octets(os: &OctetString) -> usize {
     stage("OctetString::to_bytes"); let flat = os.to_bytes(); n += flat.len();
     stage("OctetString::as_slice"); n += os.as_slice().map(|s| s.len()).unwrap_or(0);
     stage("OctetString::eq"); let other = OctetString::new(flat.clone()); n += (*os == other) as usize; n += (os == &flat.as_ref()) as usize; n += (other == *os) as usize;
+    // against every shorter, one longer and one differing slice: comparisons are total
+    { let f = flat.as_ref(); for k in 0..f.len().min(24) { n += (os == &&f[..k]) as usize; }
+      let mut longer = f.to_vec(); longer.push(0); n += (os == &longer) as usize;
+      if let Some(l) = longer.iter_mut().rev().nth(1) { *l ^= 0x55; n += (os == &longer) as usize; }
+      for k in 0..f.len().min(24) { n += os.partial_cmp(&&f[..k]).is_some() as usize; } }
     stage("OctetString::cmp"); n += os.cmp(&other) as i8 as usize & 1; n += other.cmp(os) as i8 as usize & 1; n += os.partial_cmp(&flat.as_ref()).is_some() as usize;
     stage("OctetString::hash"); n += (hash_of(os) == hash_of(&other)) as usize;
     stage("OctetString::debug"); n += format!("{:?}", os).len();
